@@ -34,6 +34,7 @@ pub fn prop() -> HistProp {
         thorough: 40000,
         mk: |_, _, _| Box::new(C08 { frozen: BTreeMap::new(), boundary_tx: false }),
         extra: None,
+        many_batches: 2,
     }
 }
 
